@@ -74,6 +74,7 @@ func runC04(c *kit.Ctx) {
 	c.StartRule("R1", "classification tables are disjoint and map to distinct classes", 6)
 	exceptionTableOracle(c)
 	headerExceptionIsClassified(c)
+	classificationGoesByClassName(c)
 	var classSet []types.Type
 	{
 		tables := []string{"javaRetryableExceptions", "javaRegionExceptions", "javaServerExceptions"}
@@ -151,6 +152,7 @@ func runC04(c *kit.Ctx) {
 
 	// ---- R2 ---------------------------------------------------------------
 	c.StartRule("R2", "every consumer of result errors is exhaustive over the classes it must handle", 5)
+	batchRetriesUntilNothingIsLeft(c)
 	probeClassifiesOutcome(c)
 	required := map[string][]string{
 		"(*gohbase.client).SendRPC":           allNames,
@@ -389,6 +391,9 @@ func runC04(c *kit.Ctx) {
 	}
 
 	embed(c, "R7", "every attempt is routed by the current location of the row, with the region of the call it is (the rules of C01, run as one rule here)", 30, runC01)
+	if !c.Frozen {
+		embed(c, "R8", "a region or server fault ends: the region comes back through one establisher that is started exactly once, is released whatever the outcome, and never crashes (the rules of C09, run as one rule here)", 30, runC09)
+	}
 	embed(c, "R6", "a failing connection fails every request on it with a connection-level error, so that it is retried elsewhere (the rules of C03, run as one rule here)", 30, runC03)
 
 	// ---- R5 ---------------------------------------------------------------
@@ -413,7 +418,7 @@ func runC04(c *kit.Ctx) {
 				errV = cmp.Y
 			}
 			// from the equal edge every path returns that error without waiting or looping
-			e := kit.PathFromBlock(kit.SuccOnTrue(iff), kit.PathQuery{Target: func(x ssa.Instruction) bool {
+			e := kit.PathFromBlock(kit.SuccOnTrue(iff), kit.PathQuery{TargetPath: func(x ssa.Instruction, path []*ssa.BasicBlock) bool {
 				if call, ok := x.(*ssa.Call); ok && kit.CalleeName(call) == sleepName {
 					return true
 				}
@@ -421,10 +426,15 @@ func runC04(c *kit.Ctx) {
 					return true // looped
 				}
 				if r, ok := x.(*ssa.Return); ok {
-					return !kit.Same(returnedError(r), errV)
+					if kit.Same(returnedError(r), errV) {
+						return false
+					}
+					// the same variable after the ways met again (a flag decides later that the error is final)
+					full := append([]*ssa.BasicBlock{iff.Block()}, path...)
+					return !kit.Same(kit.ResolveAlong(returnedError(r), full), errV)
 				}
 				return false
-			}})
+			}, Known: kit.EdgeFacts(iff.Block(), kit.SuccOnTrue(iff))})
 			if e == nil {
 				good = true
 			}
@@ -460,9 +470,93 @@ func failedRegionAlwaysMarked(c *kit.Ctx) {
 	// clientDown always deals with the region the error was seen on, whatever the cache says
 	if cd := c.Anchor("", "client", "clientDown"); cd != nil {
 		regP := paramOfType(cd, "/hrpc.RegionInfo", 0)
+		// the work-list form: the region is put into a slice first (affected := [reg, others...]) and one loop over
+		// that slice marks every element
+		var holds func(v ssa.Value, seen map[ssa.Value]bool) bool
+		holds = func(v ssa.Value, seen map[ssa.Value]bool) bool {
+			if regP == nil {
+				return false
+			}
+			v = kit.Root(v)
+			if seen[v] {
+				return true // a loop-carried slice that only grows
+			}
+			seen[v] = true
+			switch x := v.(type) {
+			case *ssa.Phi:
+				for _, e := range x.Edges {
+					if !holds(e, seen) {
+						return false
+					}
+				}
+				return true
+			case *ssa.Call:
+				if kit.CalleeName(x) == "builtin.append" && len(x.Call.Args) == 2 {
+					if holds(x.Call.Args[0], seen) {
+						return true
+					}
+					if sl, ok := x.Call.Args[1].(*ssa.Slice); ok {
+						for _, r := range kit.Referrers(sl.X) {
+							if ia, ok := r.(*ssa.IndexAddr); ok {
+								for _, r2 := range kit.Referrers(ia) {
+									if st, ok := r2.(*ssa.Store); ok && st.Addr == ssa.Value(ia) && kit.Root(st.Val) == ssa.Value(regP) {
+										return true
+									}
+								}
+							}
+						}
+					}
+				}
+			case *ssa.MakeSlice:
+				for _, r := range kit.Referrers(x) {
+					if ia, ok := r.(*ssa.IndexAddr); ok {
+						if k, isK := kit.ConstInt(ia.Index); isK && k == 0 {
+							for _, r2 := range kit.Referrers(ia) {
+								if st, ok := r2.(*ssa.Store); ok && st.Addr == ssa.Value(ia) && kit.Root(st.Val) == ssa.Value(regP) {
+									return true
+								}
+							}
+						}
+					}
+				}
+			case *ssa.UnOp:
+				if a, ok := x.X.(*ssa.Alloc); ok && x.Op == token.MUL {
+					sts := kit.StoresTo(a)
+					for _, st := range sts {
+						if !holds(st, seen) {
+							return false
+						}
+					}
+					return len(sts) > 0
+				}
+			}
+			return false
+		}
+		elementOfWorkList := func(v ssa.Value) bool {
+			u, ok := kit.Root(v).(*ssa.UnOp)
+			if !ok || u.Op != token.MUL {
+				return false
+			}
+			ia, ok := u.X.(*ssa.IndexAddr)
+			return ok && holds(ia.X, map[ssa.Value]bool{})
+		}
 		e := kit.PathFromEntry(cd, kit.PathQuery{Stop: func(x ssa.Instruction) bool {
 			call, ok := x.(*ssa.Call)
-			return ok && kit.CalleeName(call) == hrpcRI+"MarkUnavailable" && call.Call.Value == ssa.Value(regP)
+			return ok && kit.CalleeName(call) == hrpcRI+"MarkUnavailable" && (call.Call.Value == ssa.Value(regP) || elementOfWorkList(call.Call.Value))
+		}, SkipEdge: func(from, to *ssa.BasicBlock) bool {
+			// the loop over the work list is entered: the list holds the region, so it is not empty
+			br, ok := from.Instrs[len(from.Instrs)-1].(*ssa.If)
+			if !ok || len(from.Succs) != 2 || to != from.Succs[1] {
+				return false
+			}
+			bo, ok := br.Cond.(*ssa.BinOp)
+			if !ok || bo.Op != token.LSS {
+				return false
+			}
+			if call, ok := kit.Root(bo.Y).(*ssa.Call); ok && kit.CalleeName(call) == "builtin.len" && len(call.Call.Args) == 1 {
+				return holds(call.Call.Args[0], map[ssa.Value]bool{})
+			}
+			return false
 		}})
 		c.Check(e == nil && regP != nil, cd, "failed-region-always-marked", cd.Pos(), "every path through clientDown marks the region the error was seen on (even if the connection is no longer in the cache)", "clientDown can return without marking the region whose request failed: if the connection was already purged by another request, that region keeps a dead connection forever")
 	}
